@@ -367,10 +367,10 @@ func checkStore(db sortedkv.Database, allowed []*chanops.Snap, id channel.ID, pe
 }
 
 const rule = "histories of 1-30 operations on a persistence.StateMachine over keyvalue.NewPersistRestorer(faultkv): " +
-	"ChannelCreated (2-3 participants, 2% 11; with/without parent; no-app or mock app; own index any) then operations drawn phase-aware from " +
+	"ChannelCreated (2-3 participants, 5% 11 so that signature keys have two digits; with/without parent; no-app or mock app; own index any) then operations drawn phase-aware from " +
 	"Init, Sig, AddSig(valid|other signer|other state|random), EnableInit/Update/Final, Update(next|final|bad version|bad sum), DiscardUpdate, " +
 	"ForceUpdate (only with a current state), SetFunded, SetRegistering, SetRegistered, SetProgressing, SetProgressed, SetWithdrawing, SetWithdrawn (removal), " +
-	"direct ChannelRemoved; one in ten operations is drawn from the whole alphabet regardless of phase; a seventh of the longer histories use the " +
+	"direct ChannelRemoved; one in ten operations is drawn from the whole alphabet regardless of phase; about 7% of the histories use the " +
 	"order of client.persistVirtualChannel (Init..SetFunded before ChannelCreated). memorydb, LevelDB for a tenth. " +
 	"Oracle: live machine snapshot (index, params encoding, phase, current tx, staged state, per-slot staged signatures, peers, parent) before/after every " +
 	"operation; at EVERY write boundary (direct write or Batch.Apply) a fresh PersistRestorer over the frozen key space must show, by RestoreChannel and by " +
@@ -442,7 +442,10 @@ func minimize(c Case, sig string) Case {
 	for i := range c.Ops {
 		i := i
 		if c.Ops[i].St != nil {
-			try(func(x *Case) { x.Ops[i].St = &chanops.StSpec{Kind: "next", Final: x.Ops[i].St.Final}; x.Ops[i].Actor = 0 })
+			try(func(x *Case) {
+				x.Ops[i].St = &chanops.StSpec{Kind: "next", Final: x.Ops[i].St.Final}
+				x.Ops[i].Actor = 0
+			})
 			try(func(x *Case) { x.Ops[i].St.Final = false })
 		}
 		try(func(x *Case) { x.Ops[i].Actor = 0 })
